@@ -111,8 +111,12 @@ func (acc *DB) ExecFrozen(addr, execaddr string, amount int64) (*types.Receipt, 
 		return nil, types.ErrNoBalance
 	}
 	copyacc := types.CloneAccount(acc1)
+	frozen, err := safeAdd(acc1.Frozen, amount)
+	if err != nil {
+		return nil, err
+	}
 	acc1.Balance -= amount
-	acc1.Frozen += amount
+	acc1.Frozen = frozen
 	receiptBalance := &types.ReceiptExecAccountTransfer{
 		ExecAddr: execaddr,
 		Prev:     copyacc,
@@ -136,7 +140,11 @@ func (acc *DB) ExecActive(addr, execaddr string, amount int64) (*types.Receipt, 
 		return nil, types.ErrNoBalance
 	}
 	copyacc := types.CloneAccount(acc1)
-	acc1.Balance += amount
+	balance, err := safeAdd(acc1.Balance, amount)
+	if err != nil {
+		return nil, err
+	}
+	acc1.Balance = balance
 	acc1.Frozen -= amount
 	receiptBalance := &types.ReceiptExecAccountTransfer{
 		ExecAddr: execaddr,
@@ -166,8 +174,12 @@ func (acc *DB) ExecTransfer(from, to, execaddr string, amount int64) (*types.Rec
 	copyaccFrom := types.CloneAccount(accFrom)
 	copyaccTo := types.CloneAccount(accTo)
 
+	balanceTo, err := safeAdd(accTo.Balance, amount)
+	if err != nil {
+		return nil, err
+	}
 	accFrom.Balance -= amount
-	accTo.Balance += amount
+	accTo.Balance = balanceTo
 
 	receiptBalanceFrom := &types.ReceiptExecAccountTransfer{
 		ExecAddr: execaddr,
@@ -203,8 +215,12 @@ func (acc *DB) ExecTransferFrozen(from, to, execaddr string, amount int64) (*typ
 	copyaccFrom := types.CloneAccount(accFrom)
 	copyaccTo := types.CloneAccount(accTo)
 
+	balanceTo, err := safeAdd(accTo.Balance, amount)
+	if err != nil {
+		return nil, err
+	}
 	accFrom.Frozen -= amount
-	accTo.Balance += amount
+	accTo.Balance = balanceTo
 
 	receiptBalanceFrom := &types.ReceiptExecAccountTransfer{
 		ExecAddr: execaddr,
@@ -274,7 +290,11 @@ func (acc *DB) execDepositFrozen(addr, execaddr string, amount int64) (*types.Re
 	}
 	acc1 := acc.LoadExecAccount(addr, execaddr)
 	copyacc := types.CloneAccount(acc1)
-	acc1.Frozen += amount
+	frozen, err := safeAdd(acc1.Frozen, amount)
+	if err != nil {
+		return nil, err
+	}
+	acc1.Frozen = frozen
 	receiptBalance := &types.ReceiptExecAccountTransfer{
 		ExecAddr: execaddr,
 		Prev:     copyacc,
@@ -295,7 +315,11 @@ func (acc *DB) ExecDeposit(addr, execaddr string, amount int64) (*types.Receipt,
 	}
 	acc1 := acc.LoadExecAccount(addr, execaddr)
 	copyacc := types.CloneAccount(acc1)
-	acc1.Balance += amount
+	balance, err := safeAdd(acc1.Balance, amount)
+	if err != nil {
+		return nil, err
+	}
+	acc1.Balance = balance
 	receiptBalance := &types.ReceiptExecAccountTransfer{
 		ExecAddr: execaddr,
 		Prev:     copyacc,
